@@ -92,6 +92,9 @@ def run(tier):
             sets.append(("c_8", col("o_2", f"d{i}")))
         where = P(rnd.choice(["in", "exists"]), colref=col("k_1", src.key()), query=sub)
         extra.append(Stmt("update", Base(f"tb_ut{i}"), None, None, {"set": sets, "from": frm, "where": where}))
+    # CTEs that read themselves without the RECURSIVE keyword (the only spelling tsql / oracle / db2 have): the self reference is the CTE under any name
+    from . import c01 as _c01
+    extra += [st_ for _, st_, _ds in _c01.recursive_cte_cases(12 if tier == "quick" else 100, common.env.seed() * 7 + 5)]
     for i in range(n + len(extra)):
         st = g.statement(rnd.choice([1, 2, 2, 3]), kinds=kinds) if i < n else extra[i - n]
         sql = sqlgen.render(st)
